@@ -282,14 +282,15 @@ pub fn parse_shape(t: &mut Toks) -> Result<Shape, String> {
 }
 
 impl Dyn {
-    /// token text; `canon` sorts map entries by key text and normalises f32 NaNs
+    /// token text; `canon` sorts map entries by key text and normalises *signalling* f32 NaNs (the
+    /// conversion to f64 quiets them); quiet NaNs keep sign and payload and are compared exactly
     pub fn text(&self, canon: bool, out: &mut Vec<String>) {
         match self {
             Dyn::Bool(true) => out.push("T".into()),
             Dyn::Bool(false) => out.push("F".into()),
             Dyn::Int(i) => out.push(format!("i{i}")),
             Dyn::F32(b) => {
-                if canon && f32::from_bits(*b).is_nan() {
+                if canon && f32::from_bits(*b).is_nan() && *b & 0x0040_0000 == 0 {
                     out.push("fNaN".into())
                 } else {
                     out.push(format!("f{b}"))
